@@ -29,6 +29,9 @@ type step struct {
 	// (as accessory.NewThermostat does after it has set a value)
 	Rebound       bool
 	Min, Max, Stp float64
+	// ReadCallback: the value does not arrive through an update but is handed back by the application's
+	// read callback (OnValueGet) when the characteristic is read locally or by a controller (Remote)
+	ReadCallback bool
 }
 
 func (s step) String() string {
@@ -38,6 +41,9 @@ func (s step) String() string {
 	who := "local"
 	if s.Remote {
 		who = "remote"
+	}
+	if s.ReadCallback {
+		who += "-read(callback returns)"
 	}
 	if s.Repeat {
 		who += "(same value again)"
@@ -119,6 +125,17 @@ func apply(ch *characteristic.Characteristic, s step, conn *hx.DummyConn) (err e
 			err = fmt.Errorf("update panicked: %v", r)
 		}
 	}()
+	if s.ReadCallback {
+		v := s.Value
+		ch.OnValueGet(func() interface{} { return v })
+		defer ch.OnValueGet(nil)
+		if s.Remote {
+			ch.GetValueFromConnection(conn)
+		} else {
+			ch.GetValue()
+		}
+		return nil
+	}
 	if s.Remote {
 		ch.UpdateValueFromConnection(s.Value, conn)
 	} else {
@@ -179,7 +196,7 @@ func TestC12Prop(t *testing.T) {
 				steps = append(steps, step{Rebound: true, Min: lo, Max: lo + span, Stp: stp})
 				continue
 			}
-			s := step{Remote: rapid.Bool().Draw(t, "remote")}
+			s := step{Remote: rapid.Bool().Draw(t, "remote"), ReadCallback: rapid.IntRange(0, 5).Draw(t, "via-read-callback") == 0}
 			if i > 0 && !steps[len(steps)-1].Rebound && rapid.IntRange(0, 4).Draw(t, "repeat") == 0 {
 				s.Repeat = true
 				s.Value = steps[len(steps)-1].Value
@@ -212,6 +229,12 @@ func TestC12Prop(t *testing.T) {
 		if !readable(ch) {
 			classes = append(classes, "write-only")
 		}
+		for _, s := range steps {
+			if s.ReadCallback {
+				classes = append(classes, "value-from-read-callback")
+				break
+			}
+		}
 		stats.Case(stats.Hash(ctor.Name, fmt.Sprint(steps)), len(foreign) > 0, sorted(classes), func() interface{} {
 			return map[string]interface{}{"constructor": ctor.Name, "format": ch.Format, "steps": fmt.Sprint(steps)}
 		})
@@ -232,7 +255,7 @@ func TestC12Prop(t *testing.T) {
 			had = had || ch.Value != nil
 			// bounds redeclared by the application bind the value from the next update that takes effect
 			// (a remote write to a characteristic without write permission is ignored and leaves the old value)
-			took := !s.Remote || writable(ch)
+			took := !s.Remote || writable(ch) || s.ReadCallback
 			if took {
 				dirty = false
 			}
